@@ -87,6 +87,12 @@ def seq_project(run, proj, histories, u=None, step_oracles=(), theorems=(), kern
                 run.disagree("extraction-vs-kernel", {"line": ln}, y, x, ["(extraction)"])
 
 
+def adversarial_universe():
+    """pids that are prefixes / suffixes / case variants of one another (C05, C18 quantifier)"""
+    from universe import Universe
+    return Universe(pids={1: "doi:10.5063/F1.obj.7", 2: "obj.7", 3: "doi:10.5063/F1", 4: "OBJ.7"})
+
+
 def gen_histories(rng, kind, n_exh2, n_rand, maxlen, **kw):
     A = seq.alphabet(kind, **kw)
     hs = []
@@ -115,9 +121,12 @@ def c05(run):
                {"op": "del", "p": 1}])
     hs += gen_histories(rng, "refs", 150 if quick else 1500, 120 if quick else 1500, 10 if quick else 30)
     hs += gen_histories(rng, "all", 0, 60 if quick else 600, 12 if quick else 30)
-    seq_project(run, "P-seq[C05]", hs,
-                step_oracles=(lambda c, r, b, a: oracles.inv_refs(a), oracles.OrphanTracker, oracles.delete_total),
-                theorems=["inv_step", "delete_total"], kernel_sample=8 if quick else 40)
+    ors = (lambda c, r, b, a: oracles.inv_refs(a), oracles.OrphanTracker, oracles.delete_total)
+    half = len(hs) // 2
+    seq_project(run, "P-seq[C05]", hs[:half], step_oracles=ors,
+                theorems=["C05_sem_inv", "C05_delete_total"], kernel_sample=8 if quick else 40)
+    seq_project(run, "P-seq[C05]/related-pids", hs[half:], u=adversarial_universe(), step_oracles=ors,
+                theorems=["C05_sem_inv", "C05_delete_total"])
 
 
 # ------------------------------------------------------------------ C03 / C04 / C06 / C11
@@ -129,8 +138,11 @@ def c03(run):
           [{"op": "so", "p": 1, "b": 7, "n": 1}, {"op": "so", "p": 2, "b": 8, "n": 1}, {"op": "tag", "p": 1, "c": 8}],
           [{"op": "tag", "p": 1, "c": 100}, {"op": "so", "p": 2, "b": 7, "n": 1}, {"op": "tag", "p": 1, "c": 7}]]
     hs += gen_histories(rng, "refs", 200 if quick else 2000, 150 if quick else 2000, 10 if quick else 30)
-    seq_project(run, "P-seq[C03]", hs, step_oracles=(oracles.rebind_rejected,),
+    half = len(hs) // 2
+    seq_project(run, "P-seq[C03]", hs[:half], step_oracles=(oracles.rebind_rejected,),
                 theorems=["C03_rebind_rejected", "C03_binding_changes_only_by_delete"], kernel_sample=5 if quick else 30)
+    seq_project(run, "P-seq[C03]/related-pids", hs[half:], u=adversarial_universe(), step_oracles=(oracles.rebind_rejected,),
+                theorems=["C03_rebind_rejected", "C03_binding_changes_only_by_delete"])
 
 
 def retrieve_all_oracle():
@@ -145,10 +157,12 @@ def c04(run):
            {"op": "dii", "c": 7, "sz": "n", "pre": True, "ok": False}, {"op": "del", "p": 1}, {"op": "ro", "p": 2}]]
     hs += gen_histories(rng, "all", 150 if quick else 1500, 150 if quick else 2000, 12 if quick else 30,
                         contents={7: 1, 8: 1}, pids=(1, 2, 3))
-    seq_project(run, "P-seq[C04]", hs,
-                step_oracles=(oracles.referenced_stable, oracles.last_delete_and_guard),
-                theorems=["C04_referenced_object_stable_present", "C04_last_delete_removes", "C04_del_invalid_guard"],
-                kernel_sample=5 if quick else 30, retrieve_bound=True)
+    half = len(hs) // 2
+    th = ["C04_referenced_object_stable_present", "C04_last_delete_removes", "C04_del_invalid_guard"]
+    seq_project(run, "P-seq[C04]", hs[:half], step_oracles=(oracles.referenced_stable, oracles.last_delete_and_guard),
+                theorems=th, kernel_sample=5 if quick else 30, retrieve_bound=True)
+    seq_project(run, "P-seq[C04]/related-pids", hs[half:], u=adversarial_universe(),
+                step_oracles=(oracles.referenced_stable, oracles.last_delete_and_guard), theorems=th, retrieve_bound=True)
 
 
 def c06(run):
